@@ -433,7 +433,7 @@ func yamlCases() []docCase {
 	add("many-packages", "contents:\n  packages:\n"+strings.Repeat("    - p\n", 200000))
 	add("many-env", "environment:\n"+func() string {
 		var sb strings.Builder
-		for i := 0; i < 20000; i++ { // yaml.v3 compares every key with every other one: 50 000 keys take 9 s
+		for i := 0; i < 8000; i++ { // yaml.v3 compares every key with every other one: 20 000 keys take 1.5 s, 50 000 take 9 s
 			fmt.Fprintf(&sb, "  K%d: v\n", i)
 		}
 		return sb.String()
@@ -971,7 +971,7 @@ func runDecoders(dir string, seed uint64, tier string) error {
 		if r.mb > a.maxMB {
 			a.maxMB = r.mb
 		}
-		if r.ms > 3000 {
+		if r.ms > 1000 {
 			slow = append(slow, fmt.Sprintf("%s/%s %dms", c.reader, c.kind, r.ms))
 		}
 		if (r.class == ckPanic && !strings.HasPrefix(r.what, "process died")) || r.class == ckHang {
@@ -993,7 +993,7 @@ func runDecoders(dir string, seed uint64, tier string) error {
 	for k, a := range per {
 		st[k] = map[string]int{"ok": a.ok, "err": a.err, "panic": a.panic_, "timeout": a.hang, "max_ms": a.maxMs, "max_heap_MiB": a.maxMB}
 	}
-	j, _ := json.Marshal(map[string]any{"decoders_structured_cases": len(cs), "decoders_outcomes": st, "decoders_slower_than_3s": slow, "decoders_child_restarts": restarts,
+	j, _ := json.Marshal(map[string]any{"decoders_structured_cases": len(cs), "decoders_outcomes": st, "decoders_slower_than_1s": slow, "decoders_child_restarts": restarts,
 		"decoders_note": "exploration of library decoders with field-level hostile inputs; not a proof"})
 	fmt.Printf("STAT %s\n", j)
 	// an (empty) cases file keeps the stage uniform for the framework
